@@ -19,9 +19,13 @@
                                exactly (as a permutation when sections are sorted);
                                `plain_doc_iso` restates it with `Spec.GraphIso.Iso`;
     * `typed_list_witness`     D7 on the unrepaired list decision, and its absence on the repaired one.
-  NOT PROVED (stated as `def`): `resources_doc_roundtrip` — nested-resource mode (AddResource with
-    `[ ]` property lists and `( )` collections, BufferedTriplesEncoder). See the comment there for what
-    evidence exists instead.
+    * `resources_doc_roundtrip_partial`  nested-resource mode (AddResource … Close), the fragment of
+                               NESTING DEPTH 0 WITH EXPLICIT SUBJECTS: resources whose statements are all
+                               ObjectStatements — predicate-object lists with `;` and `,`, rdf:type first as
+                               `a`, the multi-line tab layout — every configuration as above.
+  NOT PROVED (stated as `def`): `resources_doc_roundtrip` — full nested-resource mode: `[ ]` property
+    lists (fresh blank nodes), `( )` collections, anonymous roots `[]`, the BufferedTriplesEncoder
+    composition. See the comment there for what evidence exists instead.
 
   The theorems are about the REPAIRED code (token layer: D4–D6; `normalizedListSyntax`: D7).
   HYPOTHESES, all decidable (examples at the end): IRIs, namespaces and the base consist of IRI
@@ -35,6 +39,7 @@ import RdfModel.Props.C02DocDefs
 import RdfModel.Props.C02TokensTables
 import RdfModel.Props.C05Ttl
 import RdfModel.Proofs.C02DocMain
+import RdfModel.Proofs.C02DocRes
 import RdfModel.Proofs.C02DocCheck
 import RdfModel.Proofs.C13PM
 import RdfModel.Spec.GraphIso
@@ -57,6 +62,7 @@ theorem docCfg_ok : CfgOK docCfg Gen.turtle where
   prod := rfl
   pnBase := fun _ => rfl
   sp := by decide
+  nlsp := by decide
   vis := fun c h1 h2 => rangeAvoids_sound (rs := Gen.unicodeSpace) (lo := 0x21) (hi := 0x7e) (by decide) h1 h2
   res_none := fun _ => rfl
   res_some := fun _ _ => rfl
@@ -136,7 +142,8 @@ theorem new_pm_agree (S : Prefix.Sorter) (ms : List Prefix.Mapping) : PMAgree (P
 
 /-! ### nested-resource mode -/
 
-/-- FULL STATEMENT for nested-resource mode (NOT PROVED): for every graph of well-formed triples, both
+/-- FULL STATEMENT for nested-resource mode (NOT PROVED; the proved fragment is
+    `resources_doc_roundtrip_partial` below): for every graph of well-formed triples, both
     iteration orders of the subject map and every configuration, the document written through the
     `BufferedTriplesEncoder` (export with the default options, `AddResource` for every exported resource
     with `[ ]` property lists and `( )` collections, `Close`) is accepted by the decoder and decodes to a
@@ -146,10 +153,11 @@ theorem new_pm_agree (S : Prefix.Sorter) (ms : List Prefix.Mapping) : PMAgree (P
     flatten back to a graph isomorphic to the input, for every iteration order; (ii) T3 — the model
     `TtlEnc.encodeResourceListWith` is byte-identical to the Go encoder on generated and on really exported
     trees (go/cmd/c02); (iii) the oracle Go encode → Go decode → isomorphic on those cases.
-    What a proof needs beyond `plain_doc_roundtrip`: the statement machine on `;` / `,` lists, `[ … ]`
-    (fresh blank nodes, `bnplEnd`) and `( … )` (`collOpenObj` / `collContinue`, the rdf:first/rest
+    What a proof needs beyond `resources_doc_roundtrip_partial`: the statement machine on `[ … ]` (fresh
+    blank nodes, `bnplEnd`), `[]` subjects and `( … )` (`collOpenObj` / `collContinue`, the rdf:first/rest
     triples the decoder generates against the cells `listSyntax` consumed), by induction on the fuel of
-    `TtlEnc.write`; and that regrouping by predicate is a permutation. -/
+    `TtlEnc.write`, with a renaming that sends the blank nodes the encoder inlined to the decoder's
+    fresh ones. -/
 def resources_doc_roundtrip : Prop :=
   ∀ (β : Type) [DecidableEq β] (cfg : Config) (pm : Prefix.PM) (label : β → List Nat)
     (ord1 ord2 : List (Term β)) (ts : List (Triple β)),
@@ -160,6 +168,49 @@ def resources_doc_roundtrip : Prop :=
       encodeResourcesWith Gen.turtle false cfg pm label ord1 ord2 ts = some (.ok doc) ∧
       run docCfg .eof (defaultBase cfg) (defaultPrefixes cfg pm) doc = (out, .clean) ∧
       out.map tripleOfStmt = tr.map some ∧ Spec.Iso tr ts
+
+/-- the graph a list of flat resources stands for -/
+def flatTriples {β : Type} (rs : List (Proofs.C02Doc.FlatRes β)) : List (Triple β) := rs.flatMap (·.triples)
+
+/-- `flatTriples` is what `Resource.NewTriples` (Model/Description.lean) yields for them -/
+theorem flatTriples_newTriples {β : Type} [DecidableEq β] (rs : List (Proofs.C02Doc.FlatRes β)) (n : Nat) :
+    newTriplesList (rs.map (·.toResource)) n = ((flatTriples rs).map (Triple.map BN.orig), n) := by
+  induction rs with
+  | nil => rfl
+  | cons r rs ih => simp [newTriplesList, Proofs.C02Doc.newTriples_flat, ih, flatTriples]
+
+/-- `resources_doc_roundtrip_partial`: nested-resource mode restricted to resources of nesting depth 0
+    with an explicit subject (`FlatRes`: subject, `(predicate, object)` pairs; at least one pair). For
+    every configuration, `AddResource` for each of them and `Close` produce a document the decoder
+    accepts, and the decoded graph is isomorphic to the graph the resources stand for (the statements
+    come back regrouped by predicate, the sections possibly sorted: a permutation).
+    MISSING towards `resources_doc_roundtrip`: AnonResourceStatements (`[ … ]`, `( … )`), anonymous
+    roots (`[]` subject: decoder-made blank nodes), and the composition with the export of
+    `ResourceListBuilder` (C17). `d7` is irrelevant on this fragment (no list cells). -/
+theorem resources_doc_roundtrip_partial {β : Type} [DecidableEq β] (C : Cfg) (T : Tables) (hT : DocTablesOK T)
+    (hC : CfgOK C T) (cfg : Config) (pm : Prefix.PM) (label : β → List Nat) (hcfg : ConfigOK C.isSpace T cfg pm)
+    (hlbl : LabelOK T label) (d7 : Bool) (rs : List (Proofs.C02Doc.FlatRes β))
+    (hrs : ∀ r ∈ rs, Proofs.C02Doc.FlatOK (ctxOf T cfg pm label) cfg.base r) :
+    ∃ (doc : List Nat) (out : List Stmt) (tr : List (Triple BN)),
+      encodeResourceListWith T d7 cfg pm label (rs.map (·.toResource)) = some (.ok doc) ∧
+      run C .eof (defaultBase cfg) (defaultPrefixes cfg pm) doc = (out, .clean) ∧
+      out.map tripleOfStmt = tr.map some ∧ Spec.Iso tr (flatTriples rs) := by
+  obtain ⟨doc, rs', h1, h2, h3⟩ := Proofs.C02Doc.flat_roundtrip hT hC hcfg hlbl d7 rs hrs
+  refine ⟨doc, rs'.flatMap (Proofs.C02Doc.outFlat label),
+    (rs'.flatMap (·.grouped)).map (Triple.map (fun b => BN.lbl (label b))), h1, h3, ?_, ?_⟩
+  · simp only [List.map_flatMap, Proofs.C02Doc.outFlat_triples, List.map_map]
+  · refine ⟨fun b => BN.lbl (label b), ?_, List.Perm.map _ ?_⟩
+    · intro a b hab
+      exact hlbl.inj (by injection hab)
+    · -- regrouping inside each resource, then the order of the sections
+      have hg : ∀ l : List (Proofs.C02Doc.FlatRes β), (l.flatMap (·.grouped)).Perm (l.flatMap (·.triples)) := by
+        intro l
+        induction l with
+        | nil => exact List.Perm.refl _
+        | cons r l ih =>
+          simp only [List.flatMap_cons]
+          exact (Proofs.C02Doc.grouped_perm r).append ih
+      exact (hg rs').trans (h2.flatMap_right _)
 
 /-! ### D7: a typed list node -/
 
@@ -242,6 +293,29 @@ example : encodePlainWith Gen.turtle cfg pm label ts = .ok (asc (
     "_:b1 a _:n0.x-y .\n" ++
     "_:n0.x-y base:q <http://other/z> .\n" ++
     "ex:\\-x\\. <c#p> 5 .\n")) := by decide
+
+/-- a flat resource: two predicates (rdf:type first, as `a`), one of them with two objects -/
+def res : Proofs.C02Doc.FlatRes Bool :=
+  (.iri (asc "http://e/x/s"),
+   [(asc "urn:x:q", .lit (asc "1") xsdInteger none), (TtlEnc.rdfType, .iri (asc "http://e/x/C")),
+    (asc "urn:x:q", .bnode true)])
+
+theorem res_ok : Proofs.C02Doc.FlatOK (ctxOf Gen.turtle cfg pm label) cfg.base res where
+  ne := by decide
+  s := ⟨by decide, by decide⟩
+  po := by
+    intro po hpo
+    simp only [res, List.mem_cons, List.mem_nil_iff, or_false] at hpo
+    rcases hpo with rfl | rfl | rfl
+    · exact ⟨⟨by decide, by decide⟩, ⟨by decide, by decide, by decide, by decide, by decide⟩⟩
+    · exact ⟨⟨by decide, by decide⟩, ⟨by decide, by decide⟩⟩
+    · exact ⟨⟨by decide, by decide⟩, trivial⟩
+
+set_option maxRecDepth 20000 in
+/-- what `AddResource` writes for it -/
+example : encodeResourceListWith Gen.turtle false cfg pm label [res.toResource] = some (.ok (asc (
+    "BASE <http://e/a/b>\n@prefix base: <urn:x:> .\n@prefix ex: <http://e/x/> .\n\n" ++
+    "ex:s\n\ta ex:C ;\n\tbase:q\n\t\t1 ,\n\t\t_:b1 .\n"))) := by decide
 
 end Example
 
